@@ -145,6 +145,8 @@ func c13EqualFormatFirst(ctx *core.Ctx, r *core.Report) {
 	c13FormatBeforeCompare(ctx, r, ro, "node.xpathImpl.resolveOperator")
 	c13WhenContext(ctx, r)
 	c13WriteHasValue(ctx, r)
+	c13KeyValidEveryElement(ctx, r)
+	c13FindCursorGuarded(ctx, r)
 }
 
 // c13WhenContext backs the triage of xpathImpl.resolvePath's
